@@ -19,6 +19,16 @@ unnoticed, and so that the two repairs the model anticipates flip the model auto
   gen_jsonvisitor_methods / gen_jsonvisitor_strip_raw / gen_serdemap_methods
                         which `Visit` methods the two visitors override (everything else falls back to record_debug)
                         and which of them strip an `r#` prefix
+  gen_jsonvisitor_log_skip   which JsonVisitor methods skip `log.`-prefixed names, and only under
+                        #[cfg(feature = "tracing-log")], as the FIRST match arm (the model's feat_log / log_skipped)
+  gen_lifecycle         fmt_subscriber.rs: per lifecycle callback the field lists of its `with_event_from_span!` uses
+                        ("on_close" has two: with and without timings), e.g. "on_new_span:message=new"
+  gen_lifecycle_parent_is_span   the macro builds `Event::new_child_of($id, meta, ..)` with meta = $span.metadata()
+  gen_timing_off_without_time    Subscriber::without_time() also switches fmt_span's timing off (the model ties
+                        time.busy / time.idle to the presence of a timer)
+  gen_escape_table      serde_json's ESCAPE table (src/ser.rs of the version in the repository's Cargo.lock, read from
+                        the cargo registry): 256 entries, 0 = not escaped, else the letter after the backslash
+                        (117 = 'u' for the backslash-u-00XX form); the model's escape_byte is proved equal to it
 Anything not recognised is listed in gen_json_unrecognised (must be [])."""
 import os
 import re
@@ -113,6 +123,99 @@ def main(repo, _out=None):
     if not re.search(r"values\s*:\s*BTreeMap<", src):
         unrec.append("JsonVisitor.values is not a BTreeMap")
 
+    jv_log = []
+    for n, (_s, b) in jfns.items():
+        if b and 'starts_with("log.")' in b:
+            jv_log.append(n)
+            nb = norm(b)
+            if not re.search(r'match field\.name\(\) \{\s*#\[cfg\(feature = "tracing-log"\)\]\s*name if name\.starts_with\("log\."\) => \(\),', nb):
+                unrec.append("JsonVisitor::%s: the `log.` arm is not the first arm, cfg(feature = \"tracing-log\")-gated and empty" % n)
+    jv_log = sorted(jv_log)
+
+    # ---- span-lifecycle records (fmt_subscriber.rs)
+    p_sub = os.path.join(repo, "tracing-subscriber/src/fmt/fmt_subscriber.rs")
+    sub = strip_comments(open(p_sub, encoding="utf-8").read())
+    cut = sub.find("#[cfg(test)]\nmod test")
+    if cut > 0:
+        sub = sub[:cut]
+    lifecycle = []
+    sb = impl_body(sub, r"impl\s*<C, N, E, W>\s*subscribe::Subscribe<C>\s+for\s+Subscriber<C, N, E, W>[^{]*\{", unrec, "impl Subscribe for fmt::Subscriber")
+    sfn = fns_in(sb)
+    for fn in ("on_new_span", "on_enter", "on_exit", "on_close"):
+        b = (sfn.get(fn) or ("", ""))[1] or ""
+        uses = re.findall(r"with_event_from_span!\(\s*(\w+)\s*,\s*(\w+)\s*,((?:\s*\"[^\"]*\"\s*=\s*[^,|]+,)+)\s*\|event\|", b)
+        if not uses:
+            unrec.append("fmt_subscriber.rs %s: no with_event_from_span! use recognised" % fn)
+        for _id, _sp, fl in uses:
+            fields = re.findall(r'"([^"]*)"\s*=\s*([^,]+),', fl)
+            desc = []
+            for k, v in fields:
+                v = v.strip()
+                m = re.fullmatch(r'"([^"]*)"', v)
+                desc.append(k + ("=" + m.group(1) if m else ""))
+            lifecycle.append(fn + ":" + ",".join(desc))
+        if "self.on_event(&event, ctx)" not in norm(b):
+            unrec.append("fmt_subscriber.rs %s: the lifecycle event is not handed to self.on_event" % fn)
+    mac = re.search(r"macro_rules!\s*with_event_from_span\s*\{(.*?)\n\}", sub, re.S)
+    macn = norm(mac.group(1)) if mac else ""
+    life_parent = bool(mac) and "let meta = $span.metadata();" in macn and "Event::new_child_of($id, meta, &vs)" in macn
+    if not life_parent:
+        unrec.append("with_event_from_span!: not `Event::new_child_of($id, $span.metadata(), ..)`")
+    wt = re.search(r"pub fn without_time\(self\)[^{]*\{(.*?)\n    \}", sub, re.S)
+    timing_off = bool(wt) and "fmt_span: self.fmt_span.without_time()" in norm(wt.group(1))
+    if not timing_off:
+        unrec.append("Subscriber::without_time(): does not switch fmt_span timing off")
+    cl = (sfn.get("on_close") or ("", ""))[1] or ""
+    if "extensions.get::<Timings>()" not in cl:
+        unrec.append("on_close: timings not taken from the Timings extension")
+    ns = (sfn.get("on_new_span") or ("", ""))[1] or ""
+    if not re.search(r"self\.fmt_span\.fmt_timing\s*&&\s*self\.fmt_span\.trace_close\(\)", ns):
+        unrec.append("on_new_span: Timings are not inserted exactly when fmt_timing && trace_close()")
+
+    # ---- serde_json's escape table (the dependency the model's render_string mirrors)
+    esc_table = []
+    ver = None
+    # the lock file the harness is built with (driver/vlib.py harness_pkg): the repository's, else the seed copy
+    for cand in (os.path.join(repo, "Cargo.lock"),
+                 os.path.join(os.path.dirname(os.path.dirname(os.path.abspath(__file__))), "harness", "Cargo.lock.seed")):
+        try:
+            lock = open(cand, encoding="utf-8").read()
+        except OSError:
+            continue
+        mv = re.search(r'name = "serde_json"\nversion = "([^"]+)"', lock)
+        ver = mv.group(1) if mv else None
+        break
+    import glob
+    cands = sorted(glob.glob(os.path.expanduser("~/.cargo/registry/src/*/serde_json-%s/src/ser.rs" % ver))) if ver else []
+    if not cands:
+        unrec.append("serde_json %s: src/ser.rs not found in the cargo registry" % ver)
+    else:
+        ser = strip_comments(open(cands[0], encoding="utf-8").read())
+        consts = dict((m.group(1), m.group(2)) for m in re.finditer(r"const (\w+): u8 = (b'(?:\\.|[^'])'|\d+);", ser))
+        mt = re.search(r"static ESCAPE: \[u8; 256\] = \[(.*?)\];", ser, re.S)
+        if not mt:
+            unrec.append("serde_json: ESCAPE table not found")
+        else:
+            for tok in re.findall(r"\w+", mt.group(1)):
+                v = consts.get(tok)
+                if v is None:
+                    unrec.append("serde_json ESCAPE: unknown entry %s" % tok)
+                    break
+                if v.startswith("b'"):
+                    ch = v[2:-1]
+                    esc_table.append(ord(ch[1]) if ch.startswith("\\") else ord(ch))
+                else:
+                    esc_table.append(int(v))
+            if len(esc_table) != 256:
+                unrec.append("serde_json ESCAPE: %d entries" % len(esc_table))
+        # the backslash-u-00XX writer: lowercase hex digits, high nibble first
+        sern = norm(ser)
+        if '*b"0123456789abcdef"' not in sern or not re.search(
+                r"escape_char, b'0', b'0', HEX_DIGITS\[\(byte >> 4\) as usize\], HEX_DIGITS\[\(byte & 0xF\) as usize\],? ?\]", sern):
+            unrec.append("serde_json: the AsciiControl escape writer shape not recognised")
+        if "_ => writer.write_all(&[b'\\\\', escape_char])" not in sern:
+            unrec.append("serde_json: the two-byte escape writer shape not recognised")
+
     # ---- SerdeMapVisitor (event fields)
     sm = impl_body(serde, r"impl\s*<S>\s*Visit\s+for\s+SerdeMapVisitor\s*<S>[^{]*\{", unrec, "impl Visit for SerdeMapVisitor")
     sfns = fns_in(sm)
@@ -147,6 +250,12 @@ def main(repo, _out=None):
         "Definition gen_jsonvisitor_methods : list string := %s." % coq_strs(jv_methods),
         "Definition gen_jsonvisitor_strip_raw : list string := %s." % coq_strs(jv_strip),
         "Definition gen_serdemap_methods : list string := %s." % coq_strs(sm_methods),
+        "Definition gen_jsonvisitor_log_skip : list string := %s." % coq_strs(jv_log),
+        "Definition gen_lifecycle : list string := %s." % coq_strs(lifecycle),
+        "Definition gen_lifecycle_parent_is_span : bool := %s." % b(life_parent),
+        "Definition gen_timing_off_without_time : bool := %s." % b(timing_off),
+        "Definition gen_serde_json_version : string := %s." % coq_str(ver or ""),
+        "Definition gen_escape_table : list nat := [%s]." % "; ".join(str(x) for x in esc_table),
         "Definition gen_json_unrecognised : list string := %s." % coq_strs(unrec),
         "",
     ])
